@@ -696,7 +696,7 @@ Proof.
     eapply subs_untouched; [reflexivity|intro; apply play_step_kind| |exact Hsubs].
     intros c Hk. apply play_step_other. destruct Hk as [E|E]; rewrite E; discriminate.
   - (* RTP *)
-    unfold feed_rtp. cbn [g_next g_in g_subs g_gone].
+    unfold feed_rtp, feed_rtp_gen. cbn [g_next g_in g_subs g_gone].
     split; [exact Hn|]. split; [exact Hin|]. split; [exact Hr|]. split; [exact Hf|]. split; [|exact Hgone].
     destruct (rtp_pt raw).
     + eapply subs_untouched; [reflexivity|intro; apply rtsp_step_kind| |exact Hsubs].
